@@ -72,10 +72,12 @@ const (
 	Deferred         // the request stays in the network for ReqDelay and reaches the server then, even if the client has given up meanwhile (timed out, retried on another connection, closed this one)
 	DialRefused      // (dial time) connection refused
 	Outage           // (counter only) operation hit a server that is down
+	ScriptsLost      // (server event, FlushScripts) the script cache is emptied; data, TTLs and connections stay: SCRIPT FLUSH, failover to a replica, restart seen through a proxy
+	Restart          // (server event, Restart) restart with persisted data: every established connection is reset, the script cache is empty; data and TTLs stay
 	nKinds
 )
 
-var kindNames = [...]string{"none", "latency", "drop-request", "drop-reply", "reset-before", "reset-after", "error-reply", "truncated-reply", "deferred-request", "dial-refused", "outage"}
+var kindNames = [...]string{"none", "latency", "drop-request", "drop-reply", "reset-before", "reset-after", "error-reply", "truncated-reply", "deferred-request", "dial-refused", "outage", "script-cache-lost", "server-restart"}
 
 func (k Kind) String() string { return kindNames[k] }
 
@@ -183,6 +185,43 @@ func (s *Server) SetDown(down bool) {
 	}
 }
 
+// FlushScripts makes the server lose its script cache (SCRIPT FLUSH executed on the server
+// directly, no connection involved): every EVALSHA is answered NOSCRIPT until the script has
+// been sent again with EVAL / SCRIPT LOAD.  Data, TTLs and connections are untouched and the
+// server stays reachable, so this is no outage: a client that handles NOSCRIPT (go-redis'
+// Script.Run falls back to EVAL) notices nothing.  Counted as fault kind ScriptsLost.
+func (s *Server) FlushScripts() {
+	s.flushScripts()
+	s.fire(ScriptsLost)
+}
+
+func (s *Server) flushScripts() {
+	var sink bytes.Buffer
+	w := bufio.NewWriter(&sink)
+	s.mr.Server().Dispatch(server.NewPeer(w), []string{"SCRIPT", "FLUSH"})
+	w.Flush()
+	if got := sink.String(); got != "+OK\r\n" {
+		s.r.EngineError("simredis: SCRIPT FLUSH answered %q", got)
+	}
+}
+
+// Restart is an instantaneous server restart with persisted data: every established
+// connection is reset (a command in flight on it fails: a request that has not reached the
+// server is lost, a reply that has not been read is lost although the command was executed),
+// requests still in the network (Deferred) never arrive, the script cache is empty; data and
+// TTLs are kept and new connections are accepted at once.  For a restart that takes time use
+// SetDown(true) ... Restart() ... SetDown(false).  Counted as fault kind Restart.
+func (s *Server) Restart() {
+	for _, c := range s.conns {
+		c.broken = true
+		for i := range c.queue {
+			c.queue[i].lost = true
+		}
+	}
+	s.flushScripts()
+	s.fire(Restart)
+}
+
 // Down reports whether the server is in an outage.
 func (s *Server) Down() bool { return s.down }
 
@@ -273,9 +312,10 @@ type conn struct {
 }
 
 type pending struct {
-	cmd Cmd
-	f   Fault
-	due time.Time
+	cmd  Cmd
+	f    Fault
+	due  time.Time
+	lost bool // the server was restarted while the request was in the network (Restart)
 }
 
 type timeoutErr struct{}
@@ -466,6 +506,9 @@ func (c *conn) deliver() {
 		simrt.Yield("simredis.request")
 		p := c.queue[0]
 		c.queue = c.queue[1:]
+		if p.lost {
+			continue
+		}
 		if c.s.down {
 			c.s.fire(Outage)
 			c.broken = true
